@@ -1,4 +1,5 @@
 import TFV.Dispatch
+import TFV.Extra
 
 /-- line protocol driver: `op arg...` per line on stdin, one answer per line on stdout -/
 partial def loop (h : IO.FS.Stream) (out : IO.FS.Stream) : IO Unit := do
@@ -10,7 +11,10 @@ partial def loop (h : IO.FS.Stream) (out : IO.FS.Stream) : IO Unit := do
   | op :: args =>
     match Dispatch.run op args.toArray with
     | some r => out.putStrLn r
-    | none => out.putStrLn "bad-op"
+    | none =>
+      match Extra.run op args.toArray with
+      | some r => out.putStrLn r
+      | none => out.putStrLn "bad-op"
   loop h out
 
 def main : IO Unit := do
